@@ -10,7 +10,7 @@ Known == [o |-> "add_enr", rec |-> "p1:1:v4"]
 Init == t = T0 /\ resp = <<>> /\ consumed = <<>> /\ hist = <<Reset, Known>> /\ res = [t |-> T0, ret |-> "ok", out |-> <<>>]
 Ops == (IF t.n < MAXREQ THEN {[o |-> "request_in", peer |-> p, from |-> f, n |-> t.n + 1, body |-> [t |-> "talk"]] : p \in {"p1", "p4"}, f \in {"v4", "other"}} ELSE {})
        \cup {[o |-> "talk_respond", tr |-> k] : k \in t.held} \cup {[o |-> "talk_respond", tr |-> k, empty |-> TRUE] : k \in t.held}
-       \cup {[o |-> "talk_drop", tr |-> k] : k \in t.held}
+       \cup {[o |-> "talk_drop", tr |-> k] : k \in t.held} \cup {[o |-> "talk_drop", tr |-> k, unwind |-> TRUE] : k \in t.held}
        \cup (IF t.running THEN {[o |-> "shutdown"]} ELSE {})
 Do(op) == /\ res' = TStep(t, op) /\ t' = res'.t
           /\ resp' = resp \o res'.out
